@@ -118,6 +118,12 @@ func normalizePercentEncoding(s string) string {
 				b.WriteString(percentEncodeUpper(hexVal))
 			}
 			i += 3
+		} else if s[i] >= 0x80 {
+			// A raw non-ASCII byte (Go sends RawQuery verbatim): escape it, so
+			// that the key is valid UTF-8. Keys travel through the JSON index,
+			// which would otherwise rewrite the byte and orphan the entry.
+			b.WriteString(percentEncodeUpper(s[i]))
+			i++
 		} else {
 			b.WriteByte(s[i])
 			i++
